@@ -374,6 +374,15 @@ def rnd_scalar(t, ps, r, small=False):
     c = r.random()
     if c < 0.15:
         return bytes([r.choice([0, 0xff, 0x80, 0x7f])] * s)
+    if c < 0.27:
+        # a single non-zero byte (zero low byte, zero high byte, ...)
+        out = bytearray(s)
+        out[r.randrange(s)] = r.choice([1, 0x80, 0xff, r.randrange(1, 256)])
+        return bytes(out)
+    if c < 0.35:
+        out = bytearray(r.getrandbits(8) for _ in range(s))
+        out[r.randrange(s)] = 0
+        return bytes(out)
     return bytes(r.getrandbits(8) for _ in range(s))
 
 
@@ -425,7 +434,11 @@ def synth_field(f, d, env, ps, r, ns_small):
         small = f.get("name") in ns_small
         if small:
             v = r.choice([0, 0, 1, 2, 3, 5])
-        return leb_write(v, f["signed"])
+        enc = leb_write(v, f["signed"])
+        if r.random() < 0.08:
+            # a non-canonical (padded) encoding of the same value: readers accept it, writers never produce it
+            enc = enc[:-1] + bytes([enc[-1] | 0x80]) + (b"\x7f" if (f["signed"] and v < 0) else b"\x00")
+        return enc
     raise NotJudged(k)
 
 
